@@ -29,8 +29,10 @@ func TestMain(m *testing.M) {
 }
 
 type crashT struct {
-	Sel  int  `json:"sel"` // crash index = 1 + Sel % W
-	Land bool `json:"land"`
+	Sel       int  `json:"sel"` // crash index = 1 + Sel % W
+	Land      bool `json:"land"`
+	Transient bool `json:"transient"` // a single failed store write (the process goes on) instead of a crash
+	NoRetry   bool `json:"no_retry"`  // the interrupted operation is not retried (leftovers accumulate)
 }
 
 type opT struct {
@@ -70,7 +72,8 @@ func drawOps(t *rapid.T) []opT {
 			}
 		}
 		if op.Kind != "dellabel" && rapid.IntRange(0, 9).Draw(t, "docrash") < 6 {
-			op.Crash = &crashT{Sel: rapid.IntRange(0, 999).Draw(t, "crashsel"), Land: rapid.Bool().Draw(t, "land")}
+			op.Crash = &crashT{Sel: rapid.IntRange(0, 999).Draw(t, "crashsel"), Land: rapid.Bool().Draw(t, "land"),
+				Transient: rapid.IntRange(0, 3).Draw(t, "transient") == 0, NoRetry: rapid.IntRange(0, 2).Draw(t, "noretry") == 0}
 		}
 		ops = append(ops, op)
 	}
@@ -357,10 +360,11 @@ func (w *world) account(op opT, opErr error, crashed bool, bundleID string, befo
 }
 
 type crashInfo struct {
-	w        int
-	n        int
-	land     bool
-	posClass string
+	w         int
+	n         int
+	land      bool
+	transient bool
+	posClass  string
 }
 
 // step executes one operation (with optional crash + retry) on world w
@@ -385,13 +389,15 @@ func (w *world) step(i int, op opT, enumerate bool) (sigs []string, err error) {
 	run := func(ww *world, crash *crashInfo, bid string) (error, bool, error) {
 		ww.seq++
 		v := ww.env.Actor(fmt.Sprintf("op%d-%d", i, ww.seq))
-		if crash != nil {
+		if crash != nil && crash.transient {
+			v.Proc.FailAt(crash.n, crash.land)
+		} else if crash != nil {
 			v.Proc.CrashAt(crash.n, crash.land)
 		}
 		before := descriptorKeys(ww.env.Meta, repo)
 		opErr := ww.exec(op, v, nil, bid, diamondID)
-		crashed := v.Proc.Crashed()
-		if crash != nil && crashed && opErr == nil && !(crash.land) {
+		crashed := v.Proc.Crashed() || v.Proc.Failed()
+		if crash != nil && !crash.transient && crashed && opErr == nil && !(crash.land) {
 			return nil, crashed, fmt.Errorf("operation %s reported success although write %d did not land", op.Kind, crash.n)
 		}
 		if crash == nil && opErr != nil {
@@ -429,6 +435,7 @@ func (w *world) step(i int, op opT, enumerate bool) (sigs []string, err error) {
 			descIdx = k + 1
 		}
 	}
+	transient := op.Crash.Transient
 	classify := func(n int, land bool) string {
 		pos := "mid"
 		switch {
@@ -441,7 +448,7 @@ func (w *world) step(i int, op opT, enumerate bool) (sigs []string, err error) {
 		case descIdx != 0 && n == descIdx-1:
 			pos = "last-before-descriptor"
 		}
-		return fmt.Sprintf("%s/%s/land=%v", op.Kind, pos, land)
+		return fmt.Sprintf("%s/%s/land=%v/transient=%v", op.Kind, pos, land, transient)
 	}
 	prior := len(w.committed)
 	priorCls := "0"
@@ -458,7 +465,7 @@ func (w *world) step(i int, op opT, enumerate bool) (sigs []string, err error) {
 		for n := 1; n <= W; n++ {
 			for _, land := range []bool{false, true} {
 				cw := w.clone()
-				ci := &crashInfo{w: W, n: n, land: land}
+				ci := &crashInfo{w: W, n: n, land: land, transient: transient}
 				if _, _, err := run(cw, ci, bundleID); err != nil {
 					return nil, fmt.Errorf("[enumerated crash %d/%d land=%v] %v", n, W, land, err)
 				}
@@ -470,7 +477,7 @@ func (w *world) step(i int, op opT, enumerate bool) (sigs []string, err error) {
 		}
 	}
 	n := 1 + op.Crash.Sel%W
-	ci := &crashInfo{w: W, n: n, land: op.Crash.Land}
+	ci := &crashInfo{w: W, n: n, land: op.Crash.Land, transient: transient}
 	if _, _, err := run(w, ci, bundleID); err != nil {
 		return nil, err
 	}
@@ -478,6 +485,9 @@ func (w *world) step(i int, op opT, enumerate bool) (sigs []string, err error) {
 		return nil, err
 	}
 	sigs = append(sigs, mkSig(n, op.Crash.Land))
+	if op.Crash.NoRetry {
+		return sigs, nil
+	}
 	// retry the operation (a new process; uploads get a new bundle ID, as the CLI would)
 	w.seq++
 	retryID := hx.KSUID(op.IDSec, uint64(w.seq))
